@@ -32,6 +32,9 @@ type c15case struct {
 	Taxids []int    `json:"taxids"` // taxid of each reference
 	Taxo   [][2]int `json:"taxo"`   // (taxid, parent); the root is (1,1)
 	Index  bool     `json:"index"`  // also run IndexSequence on every reference + Identify
+	// loader only: run obitag.CLIAssignTaxonomy with the reference of unknown taxid placed first / in the middle / last
+	// (a panic inside the worker goroutines of the loader kills the process: these cases are sent in a batch of their own)
+	Loader bool `json:"loader,omitempty"`
 }
 
 type c15fc struct {
@@ -45,6 +48,13 @@ type c15fc struct {
 	PairOK  bool     `json:"pairok"`
 	BestIds []string `json:"bestids"`
 	Err     string   `json:"err,omitempty"`
+}
+
+type c15clires struct {
+	Taxid int    `json:"taxid"`
+	Best  string `json:"best,omitempty"`
+	Count int    `json:"count"`
+	Kind  string `json:"kind"`
 }
 
 type c15obs struct {
@@ -69,8 +79,18 @@ type c15obs struct {
 	Taxid3  int    `json:"taxid3"`
 	Best3   string `json:"best3,omitempty"`
 	CliKind string `json:"clikind,omitempty"`
-	IdKind  string `json:"idkind,omitempty"`
-	IdErr   string `json:"iderr,omitempty"`
+	// same with the reference of unknown taxid placed first / last in the database
+	CliAt map[string]c15clires `json:"cliat,omitempty"`
+	// obitag.MatchDistanceIndex / obitag2.MatchDistanceIndex on the index IndexSequence built for each reference, for the
+	// distances 0 .. largest recorded distance + 2: taxid answered; MdiStr = (rank, scientificName) answered for reference 0, distance 0
+	Mdi    [][]int  `json:"mdi,omitempty"`
+	Mdi2   [][]int  `json:"mdi2,omitempty"`
+	MdiStr []string `json:"mdistr,omitempty"`
+	// obikmer.Sum4Mer(query), and per reference LCS4MerBounds / Error4MerBounds (query, reference): (lcsMin, lcsMax, errMin, errMax)
+	Sum4   int      `json:"sum4"`
+	Bounds [][4]int `json:"bounds,omitempty"`
+	IdKind string   `json:"idkind,omitempty"`
+	IdErr  string   `json:"iderr,omitempty"`
 }
 
 func c15seq(id, s string, taxid int) *obiseq.BioSequence {
@@ -186,20 +206,43 @@ func c15find0(f c15finder, q *obiseq.BioSequence, refs obiseq.BioSequenceSlice, 
 	return c15fc{Kind: "ok", Idxs: idxs, Maxe: maxe, BestId: bestid, BestMatch: bestmatch, PairOK: pair, BestIds: ids}
 }
 
-func c15index(i int, refs obiseq.BioSequenceSlice, counts []*obikmer.Table4mer, taxa obitax.TaxonSet, taxo *obitax.Taxonomy) (m map[string]int, kind string) {
-	if c15guard(func() { m, kind = c15index0(i, refs, counts, taxa, taxo) }) {
-		return nil, "timeout"
+func c15index(i int, refs obiseq.BioSequenceSlice, counts []*obikmer.Table4mer, taxa obitax.TaxonSet, taxo *obitax.Taxonomy) (m map[string]int, raw map[int]string, kind string) {
+	if c15guard(func() { m, raw, kind = c15index0(i, refs, counts, taxa, taxo) }) {
+		return nil, nil, "timeout"
 	}
-	return m, kind
+	return m, raw, kind
 }
 
-func c15index0(i int, refs obiseq.BioSequenceSlice, counts []*obikmer.Table4mer, taxa obitax.TaxonSet, taxo *obitax.Taxonomy) (m map[string]int, kind string) {
+// c15mdi: the two MatchDistanceIndex functions on a real index, distances 0 .. largest key + 2
+func c15mdi(f func(int, map[int]string) (int, string, string), idx map[int]string) (out []int, rank, name string) {
 	defer func() {
 		if r := recover(); r != nil {
-			m, kind = nil, "panic"
+			out = append(out, -2)
 		}
 	}()
-	idx := obirefidx.IndexSequence(i, refs, &counts, &taxa, taxo)
+	top := 0
+	for k := range idx {
+		if k > top {
+			top = k
+		}
+	}
+	for e := 0; e <= top+2; e++ {
+		t, rk, nm := f(e, idx)
+		if e == 0 {
+			rank, name = rk, nm
+		}
+		out = append(out, t)
+	}
+	return out, rank, name
+}
+
+func c15index0(i int, refs obiseq.BioSequenceSlice, counts []*obikmer.Table4mer, taxa obitax.TaxonSet, taxo *obitax.Taxonomy) (m map[string]int, idx map[int]string, kind string) {
+	defer func() {
+		if r := recover(); r != nil {
+			m, idx, kind = nil, nil, "panic"
+		}
+	}()
+	idx = obirefidx.IndexSequence(i, refs, &counts, &taxa, taxo)
 	m = map[string]int{}
 	for d, v := range idx {
 		parts := strings.Split(v, "@")
@@ -209,7 +252,7 @@ func c15index0(i int, refs obiseq.BioSequenceSlice, counts []*obikmer.Table4mer,
 		}
 		m[strconv.Itoa(d)] = t
 	}
-	return m, "ok"
+	return m, idx, "ok"
 }
 
 func c15identify(q *obiseq.BioSequence, refs obiseq.BioSequenceSlice, counts []*obikmer.Table4mer, taxa obitax.TaxonSet, taxo *obitax.Taxonomy) (taxid int, kind, msg string) {
@@ -282,6 +325,14 @@ func c15any(c c15case) any {
 	case "wrap":
 		return c15wrap(c)
 	}
+	if c.Loader {
+		taxo, err := c15taxo(c.Taxo)
+		if err != nil {
+			return c15obs{Kind: "badcase", KBad: err.Error()}
+		}
+		return c15obs{Kind: "loader", CliAt: map[string]c15clires{"first": c15cli(c, taxo, 0), "middle": c15cli(c, taxo, len(c.Refs)/2),
+			"last": c15cli(c, taxo, len(c.Refs)), "none": c15cli(c, taxo, -1)}}
+	}
 	return c15run(c)
 }
 
@@ -320,6 +371,13 @@ func c15run(c c15case) (o c15obs) {
 		o.Cw[i] = obikmer.Common4Mer(qw, counts[i])
 	}
 	o.Order = obiutils.Reverse(obiutils.IntOrder(o.Cw), true)
+	o.Sum4 = obikmer.Sum4Mer(qw)
+	o.Bounds = make([][4]int, len(refs))
+	for i := range refs {
+		l0, l1 := obikmer.LCS4MerBounds(qw, counts[i])
+		e0, e1 := obikmer.Error4MerBounds(qw, counts[i])
+		o.Bounds[i] = [4]int{l0, l1, e0, e1}
+	}
 	bad := ""
 	o.QD = make([][2]int, len(refs))
 	for i, r := range refs {
@@ -345,8 +403,19 @@ func c15run(c c15case) (o c15obs) {
 		}
 		o.Index = make([]map[string]int, n)
 		o.IdxKind = make([]string, n)
+		o.Mdi = make([][]int, n)
+		o.Mdi2 = make([][]int, n)
 		for i := 0; i < n; i++ {
-			o.Index[i], o.IdxKind[i] = c15index(i, refs, counts, taxa, taxo)
+			var raw map[int]string
+			o.Index[i], raw, o.IdxKind[i] = c15index(i, refs, counts, taxa, taxo)
+			if o.IdxKind[i] == "ok" {
+				var rk, nm string
+				o.Mdi[i], rk, nm = c15mdi(obitag.MatchDistanceIndex, raw)
+				o.Mdi2[i], _, _ = c15mdi(obitag2.MatchDistanceIndex, raw)
+				if i == 0 {
+					o.MdiStr = []string{rk, nm}
+				}
+			}
 		}
 		// Identify on a fresh copy of the database (indices built lazily by Identify itself)
 		refs2, counts2, taxa2 := mk()
@@ -383,17 +452,19 @@ func c15run(c c15case) (o c15obs) {
 		}
 	}
 	if c.Index && len(refs) >= 2 {
-		o.Taxid3, o.Best3, o.CliKind = c15cli(c, taxo)
+		r := c15cli(c, taxo, len(c.Refs)/2)
+		o.Taxid3, o.Best3, o.CliKind = r.Taxid, r.Best, r.Kind
 	}
 	o.KOk = bad == ""
 	o.KBad = bad
 	return o
 }
 
-// c15cli runs the query through obitag.CLIAssignTaxonomy on the references of the case with, inserted in the middle,
-// one more reference (a copy of the query: it would be THE best match) whose taxid the taxonomy does not know.
-func c15cli(c c15case, taxo *obitax.Taxonomy) (taxid int, best string, kind string) {
-	taxid, kind = -1, "ok"
+// c15cli runs the query through obitag.CLIAssignTaxonomy on the references of the case with, inserted at position `at`
+// (0 = first, len = last), one more reference (a copy of the query: it would be THE best match) whose taxid the taxonomy
+// does not know.
+func c15cli(c c15case, taxo *obitax.Taxonomy, at int) c15clires {
+	taxid, best, kind, count := -1, "", "ok", -1
 	if c15guard(func() {
 		defer func() {
 			if r := recover(); r != nil {
@@ -401,12 +472,14 @@ func c15cli(c c15case, taxo *obitax.Taxonomy) (taxid int, best string, kind stri
 			}
 		}()
 		refs := obiseq.MakeBioSequenceSlice()
-		at := len(c.Refs) / 2
 		for i, s := range c.Refs {
 			if i == at {
 				refs = append(refs, c15seq("unknown_taxid", c.Q, 987654321))
 			}
 			refs = append(refs, c15seq("r"+strconv.Itoa(i), s, c.Taxids[i]))
+		}
+		if at >= len(c.Refs) {
+			refs = append(refs, c15seq("unknown_taxid", c.Q, 987654321))
 		}
 		q := c15seq("q", c.Q, 1)
 		it := obiiter.IBatchOver("c15", obiseq.BioSequenceSlice{q}, 10)
@@ -417,12 +490,15 @@ func c15cli(c c15case, taxo *obitax.Taxonomy) (taxid int, best string, kind stri
 				if b, ok := s.GetStringAttribute("obitag_bestmatch"); ok {
 					best = b
 				}
+				if n, ok := s.GetIntAttribute("obitag_match_count"); ok {
+					count = n
+				}
 			}
 		}
 	}) {
-		return -1, "", "timeout"
+		return c15clires{Taxid: -1, Kind: "timeout", Count: -1}
 	}
-	return taxid, best, kind
+	return c15clires{Taxid: taxid, Best: best, Kind: kind, Count: count}
 }
 
 func init() {
